@@ -554,12 +554,12 @@ E('eta', [lambda r, c: {'t': 'mpc', 'v': [mpf_spec(r, -3, 0, maxwidth=200)['v'],
 
 # --- I: calculus with callbacks --------------------------------------------------------------
 QK = {'maxdegree': (0.2, 'i:3:6'), 'error': (0.15, '=1'), 'verbose': (0.0, '=0')}
-E('quad', 'cb:expneg Iany', fam='I', tol=10, cost=2, c10=False, maxprec=300, kw=QK)
-E('quad', 'cb:lorentz Iany', key='quad_lor', fam='I', tol=10, cost=2, c10=False, maxprec=300, kw=QK)
-E('quad', 'cb:poly I3', key='quad_split', fam='I', tol=10, cost=2, c10=False, maxprec=300)
+E('quad', 'cb:expneg Iany', fam='I', tol=10, cost=2, c10=False, maxprec=300, kw=QK, ctxs=MPFP)
+E('quad', 'cb:lorentz Iany', key='quad_lor', fam='I', tol=10, cost=2, c10=False, maxprec=300, kw=QK, ctxs=MPFP)
+E('quad', 'cb:poly I3', key='quad_split', fam='I', tol=10, cost=2, c10=False, maxprec=300, ctxs=MPFP)
 E('quadgl', 'cb:poly Iab', fam='I', tol=10, cost=2, c10=False, maxprec=300)
 E('quadgl', 'cb:cosexp I01', key='quadgl_ce', fam='I', tol=10, cost=2, c10=False, maxprec=300)
-E('quadts', 'cb:cosexp Iab', fam='I', tol=10, cost=2, c10=False, maxprec=300)
+E('quadts', 'cb:cosexp Iab', fam='I', tol=10, cost=2, c10=False, maxprec=300, ctxs=MPFP)
 E('quad', 'cb:f2d I01 Iab', key='quad2d', fam='I', tol=10, cost=3, c10=False, maxprec=100)
 E('quad', ['cb:gauss', 'Iinf'], key='quad_method', fam='I', tol=10, cost=2, c10=False, maxprec=200,
   kw={'method': lambda r, c: {'t': 'str', 'v': r.choice(['tanh-sinh', 'gauss-legendre'])}})
@@ -572,7 +572,7 @@ E('nsum', ['cb:invpow', 'I1inf'], key='nsum_levin', fam='I', tol=10, cost=2, c10
 E('nsum', ['cb:geom', lambda r, c: L(I(0), {'t': 'attr', 'v': 'inf'})], key='nsum_geom_levin', fam='I', tol=10, cost=2, c10=False, maxprec=200,
   kw={'method': lambda r, c: {'t': 'str', 'v': r.choice(['levin', 'sidi', 'shanks', 'richardson'])}})
 E('nsum', ['cb:geom', lambda r, c: L(I(0), {'t': 'attr', 'v': 'inf'})], key='nsum_geom', fam='I', tol=10, cost=2, c10=False, maxprec=300)
-E('nsum', ['cb:invpow', lambda r, c: L(I(1), I(r.randint(3, 30)))], key='nsum_fin', fam='I', tol=10, cost=1, c10=False)
+E('nsum', ['cb:invpow', lambda r, c: L(I(1), I(r.randint(3, 30)))], key='nsum_fin', fam='I', tol=10, cost=1, c10=False, ctxs=MPFP)
 E('nprod', ['cb:prodterm', 'I1inf'], fam='I', tol=10, cost=3, c10=False, maxprec=120)
 E('sumem', ['cb:invpow', 'I1inf'], fam='I', tol=10, cost=3, c10=False, maxprec=150)
 E('sumap', ['cb:invpow', 'I1inf'], fam='I', tol=10, cost=3, c10=False, maxprec=150)
@@ -585,20 +585,20 @@ E('diff', ['cb:f2d', lambda r, c: {'t': 'tuple', 'v': [real_spec(r, -2, 2, cfg=c
            lambda r, c: {'t': 'tuple', 'v': [I(r.randint(0, 2)), I(r.randint(0, 2))]}],
   key='diff_partial', fam='I', tol=10, cost=2, c10=False, maxprec=200)
 E('diffun', 'cb:cosexp i:1:3 x', op='wrapcall:diffun', fam='I', tol=10, cost=2, c10=False, maxprec=200)
-E('taylor', 'cb:cosexp x i:0:6', fam='I', tol=10, cost=2, c10=False, ret='seq', maxprec=300)
+E('taylor', 'cb:cosexp x i:0:6', fam='I', tol=10, cost=2, c10=False, ret='seq', maxprec=300, ctxs=MPFP)
 E('pade', [lambda r, c: L(*[{'t': 'frac', 'v': [1, math.factorial(i)]} for i in range(7)]), 'i:1:3', 'i:1:3'],
   fam='I', tol=10, cost=2, c10=False, ret='seq', maxprec=300)
 E('differint', 'cb:poly p v', fam='I', tol=10, cost=3, c10=False, maxprec=100)
 E('chebyfit', ['cb:cosexp', 'Iab', 'i:2:6'], fam='I', tol=10, cost=2, c10=False, ret='seq', maxprec=200, kw={'error': (0.3, '=1')})
 E('fourier', ['cb:poly', lambda r, c: L(I(-1), I(1)), 'i:1:4'], fam='I', tol=10, cost=3, c10=False, ret='seq', maxprec=100)
-E('polyval', 'poly Z', fam='I', tol=4, c10=False, kw={'derivative': (0.3, '=1')})
+E('polyval', 'poly Z', fam='I', tol=4, c10=False, kw={'derivative': (0.3, '=1')}, ctxs=MPFP)
 E('polyroots', 'poly', fam='I', tol=10, cost=2, c10=False, ret='seq', maxprec=300,
   kw={'maxsteps': (0.5, '=200'), 'extraprec': (0.5, '=200'), 'error': (0.2, '=1')})
 _SOLV = ['secant', 'mnewton', 'halley', 'muller', 'illinois', 'pegasus', 'anderson', 'ridder', 'anewton', 'bisect', 'newton', 'mdnewton']
-E('findroot', ['cb:sqminus', 'g'], fam='I', tol=10, cost=2, c10=False, maxprec=300)
+E('findroot', ['cb:sqminus', 'g'], fam='I', tol=10, cost=2, c10=False, maxprec=300, ctxs=MPFP)
 E('findroot', ['cb:cubic', lambda r, c: {'t': 'tuple', 'v': [I(1), I(4)]}], key='findroot_bracket', fam='I', tol=10, cost=2, c10=False, maxprec=300,
   kw={'solver': lambda r, c: {'t': 'str', 'v': r.choice(['illinois', 'pegasus', 'anderson', 'ridder', 'bisect', 'secant'])},
-      'verify': (0.5, '=0')})
+      'verify': (0.5, '=0')}, ctxs=MPFP)
 E('findroot', ['cb:sqminus', 'g'], key='findroot_solver', fam='I', tol=10, cost=2, c10=False, maxprec=300,
   kw={'solver': lambda r, c: {'t': 'str', 'v': r.choice(['secant', 'mnewton', 'halley', 'muller', 'anewton', 'mdnewton'])},
       'verify': (0.5, '=0')})
@@ -609,7 +609,7 @@ E('odefun', ['cb:ode_exp', '=0', '=1', 'v'], op='wrapcall:odefun', fam='I', tol=
 E('odefun', ['cb:ode_osc', '=0', lambda r, c: L(I(1), I(0)), 'v'], op='wrapcall:odefun', key='odefun_vec', fam='I', tol=10, cost=3, c10=False, ret='seq', maxprec=100)
 E('invertlaplace', ['cb:lap_exp', 'P'], fam='I', tol=10, cost=3, c10=False, maxprec=100,
   kw={'method': lambda r, c: {'t': 'str', 'v': r.choice(['talbot', 'stehfest', 'dehoog'])}})
-E('richardson', 'vec', fam='I', tol=10, c10=False, ret='seq')
+E('richardson', 'vec', fam='I', tol=10, c10=False, ret='seq', ctxs=MPFP)
 E('shanks', 'vec', fam='I', tol=10, c10=False, ret='other')
 E('autoprec', 'cb:gammaf P', op='wrapcall:autoprec', fam='I', tol=10, cost=2, c10=False, maxprec=200)
 E('autoprec', 'cb:divf =1', op='wrapcall:autoprec', key='autoprec_raise', fam='I', tol=10, cost=2, c10=False, maxprec=200)
@@ -652,8 +652,53 @@ E('hilbert', 'i:1:6', fam='K', tol=4, c10=False, ret='matrix')
 E('randmatrix', 'i:1:4', fam='K', tol=0, c10=False, ret='matrix')
 E('rand', [], fam='L', tol=0, c10=False)
 
+# --- M: public entry points that a coverage audit of dir(mp) found without an entry ------------------------------
+def _tiny(r, c):
+    return real_spec(r, -8, -3, cfg=c)
+def _spd3(r, c):
+    rows = [[r.randint(-3, 3) for _ in range(3)] for _ in range(3)]
+    a = [[sum(rows[i][k] * rows[j][k] for k in range(3)) + (30 if i == j else 0) for j in range(3)] for i in range(3)]
+    return {'t': 'matrix', 'v': [[I(v) for v in rw] for rw in a]}
+def _tri3(lower):
+    def g(r, c):
+        rows = []
+        for i in range(3):
+            row = []
+            for j in range(3):
+                keep = (j <= i) if lower else (j >= i)
+                v = (r.randint(-16, 16) + (40 if i == j else 0)) if keep else 0
+                row.append({'t': 'frac', 'v': [v, r.choice([1, 2, 4])]})
+            rows.append(row)
+        return {'t': 'matrix', 'v': rows}
+    return g
+E('appellf2', ['u', 'u', 'u', 'P', 'P', _tiny, _tiny], fam='G', tol=8, cost=3, maxprec=150)
+E('appellf3', ['u', 'u', 'u', 'u', 'P', _tiny, _tiny], fam='G', tol=8, cost=3, maxprec=150)
+E('appellf4', ['u', 'u', 'P', 'P', _tiny, _tiny], fam='G', tol=8, cost=3, maxprec=150)
+E('bihyper', [lambda r, c: L(I(r.randint(-4, -1)), real_spec(r, -2, 2, cfg=c)), lambda r, c: L(real_spec(r, -2, 3, sign=0, cfg=c)), 'u'],
+  fam='G', tol=8, cost=2, maxprec=300)
+E('absmax', 'Z', fam='B', tol=2)
+E('absmin', 'Z', fam='B', tol=2)
+E('agm1', 'Zp', fam='H', tol=6)
+E('phase', 'z', fam='B', tol=4)
+E('conjugate', 'Z', fam='B', tol=4, c10=False)      # the same routine as conj: component-level, exempt from C10 like re/im/conj
+E('hurwitz', 's P', key='hurwitz_alias', fam='D', tol=8, cost=2, maxprec=300)
+E('fibonacci', 'Z', fam='C', tol=8)
+for _n in ['isnpint', 'isnormal', 'isfinite', 'isinf', 'isnan']:
+    E(_n, 'Z', fam='L', exact=True, c10=False, ret='other', ctxs=('mp',) if _n == 'isfinite' else MPFP)
+E('difference', 'vec =1', fam='I', tol=4, c10=False)
+E('eighe', 'sym', fam='K', tol=10, cost=2, c10=False, ret='seq', maxprec=300)
+E('svd_r', 'mat', fam='K', tol=10, cost=2, c10=False, ret='seq', maxprec=300)
+E('svd_c', 'mat', fam='K', tol=10, cost=2, c10=False, ret='seq', maxprec=300)
+E('cholesky_solve', [_spd3, 'colvec3'], fam='K', tol=10, c10=False, ret='matrix', maxprec=400)
+E('L_solve', [_tri3(True), 'colvec3'], fam='K', tol=10, c10=False, ret='matrix', maxprec=400)
+E('U_solve', [_tri3(False), 'colvec3'], fam='K', tol=10, c10=False, ret='matrix', maxprec=400)
+E('residual', 'mat3 colvec3 colvec3', fam='K', tol=10, c10=False, ret='matrix', maxprec=400)
+E('lu_solve_mat', 'mat3 mat3', fam='K', tol=10, c10=False, ret='matrix', maxprec=400)
+E('det', [_spd3], key='det_spd', fam='K', tol=10, c10=False, maxprec=400)
+E('inverse', [_spd3], key='inverse_spd', fam='K', tol=10, c10=False, ret='matrix', maxprec=400)
+
 # --- constants ----------------------------------------------------------------------------------------------
-CONSTANTS = ['pi', 'e', 'ln2', 'ln10', 'phi', 'degree', 'euler', 'catalan', 'apery', 'khinchin',
+CONSTANTS =['pi', 'e', 'ln2', 'ln10', 'phi', 'degree', 'euler', 'catalan', 'apery', 'khinchin',
              'glaisher', 'twinprime', 'mertens']
 for _c in CONSTANTS:
     slow = _c in ('khinchin', 'glaisher', 'twinprime', 'mertens')
